@@ -122,8 +122,14 @@ func c15(r *lp.Run) {
 	// security
 	add(func(q *stReq) { delete(q.header, "X-Key"); q.stage = "security" })
 	add(func(q *stReq) { q.header["X-Key"] = []string{""}; q.stage = "security" })
-	add(func(q *stReq) { q.script = map[string]any{"security": map[string]string{"K": "reject"}}; q.stage = "security" })
-	add(func(q *stReq) { q.script = map[string]any{"security": map[string]string{"K": "skip"}}; q.stage = "security" })
+	add(func(q *stReq) {
+		q.script = map[string]any{"security": map[string]string{"K": "reject"}}
+		q.stage = "security"
+	})
+	add(func(q *stReq) {
+		q.script = map[string]any{"security": map[string]string{"K": "skip"}}
+		q.stage = "security"
+	})
 	// parameters
 	for _, id := range []string{"abc", "4 2", "1.5", "99999999999999999999", "0x10", "", "%zz", "4%2", "%34%32x", "١٢"} {
 		id := id
